@@ -15,6 +15,7 @@ from ..common import lib, viol, ts_of
 from ..obs import obs, fmt
 
 PID = "C17"
+ON_LIBRARY_RAISE = "skip"  # the statement is about values that are produced; a raising parse is C01's finding
 LEVEL = "exploration"
 RULE = (
     "Dataset builders: one evaluation per entry; expected samples = for every candidate of ctparse_gen(text, ts, relative_match_len=1.0, timeout=0, max_stack_depth=d, scorer=constant, "
